@@ -18,7 +18,8 @@ Property predicate on the implementation's answer alone (`propfail <clause>`):
 Model conformance (`diff …`): the event log is REPLAYED through the protocol model (`MapParallel.step`; every
 transition taken is checked to be a member of `step s`).  Hidden steps (dispatcher sends, channel receives,
 result sends, the consumer's receive between its `n` and `t` events, errgroup returns, closes) are inserted on
-demand, as late as possible; after `e:` the model must run down to a terminal state with the same error.
+demand, as late as possible; after `e:` the model must run down to a terminal state with the same error
+(for more than 1024 cores the replay is skipped: only the property predicate and `map` are checked).
 `map` itself must yield the values before the first failing item and then that item's error.
 For `n = 1` the real code falls back to `map`; its traces are checked against the model with one lane.
 -/
@@ -126,8 +127,10 @@ structure RS where
   s : St
   nexts : Nat        -- Next() calls seen so far
 
-def follow (c : Cfg) (s t : St) : M St :=
-  if (step c s).any (· == t) then pure t else throw "not-a-step-of-the-model"
+/-- `t` must be a step of the model from `s`: a member of `stepsAt c s j` ⊆ `step c s` (`mem_stepsAt`), `j` = the
+lane whose worker moves (any lane for the other goroutines) — O(lanes) instead of O(lanes²) per step -/
+def follow (c : Cfg) (s t : St) (j : Nat := 0) : M St :=
+  if (stepsAt c s j).any (· == t) then pure t else throw "not-a-step-of-the-model"
 
 def lane (s : St) (j : Nat) : M Lane :=
   match s.lanes[j]? with
@@ -164,7 +167,7 @@ def demand (c : Cfg) : Nat → Goal → RS → M RS
         | some x => demand c f (.takeUpTo x) rs
         | none => pure rs)
       let l ← lane rs.s j
-      let t ← follow c rs.s (setLane rs.s j { l with wk := Wk.idle, outq := some k })
+      let t ← follow c rs.s (setLane rs.s j { l with wk := Wk.idle, outq := some k }) j
       pure { rs with s := t }
     | _ => throw s!"worker-{j}-has-no-result-to-send"
   | f + 1, .idle j, rs => do
@@ -179,7 +182,7 @@ def demand (c : Cfg) : Nat → Goal → RS → M RS
     let l ← lane rs.s j
     match l.inq with
     | some k =>
-      let t ← follow c rs.s (setLane rs.s j { l with inq := none, wk := Wk.busy k })
+      let t ← follow c rs.s (setLane rs.s j { l with inq := none, wk := Wk.busy k }) j
       pure { rs with s := t }
     | none => throw s!"in[{j}]-is-empty"
   | f + 1, .send, rs => do
@@ -205,7 +208,7 @@ def findLane (p : Lane → Bool) (s : St) : Option (Nat × Lane) :=
   go s.lanes 0
 
 /-- one step of the run-down after the consumer's last Next(); `none` = the model is terminal -/
-def silent (c : Cfg) (want : Option Nat) (s : St) : M (Option St) :=
+def silent (c : Cfg) (want : Option Nat) (s : St) : M (Option (St × Nat)) :=
   if s.fin.isSome then pure none else
   -- errgroup returns: the error the implementation reported goes first
   let failing := match want with
@@ -214,7 +217,7 @@ def silent (c : Cfg) (want : Option Nat) (s : St) : M (Option St) :=
   match failing with
   | some (j, l) =>
     (match l.wk with
-      | .failing k => pure (some { s with lanes := s.lanes.set j { l with wk := Wk.exited }, gerr := if s.gerr.isSome then s.gerr else some k })
+      | .failing k => pure (some ({ s with lanes := s.lanes.set j { l with wk := Wk.exited }, gerr := if s.gerr.isSome then s.gerr else some k }, j))
       | _ => throw "unreachable")
   | none =>
   match findLane (fun l => match l.wk with | .busy _ => true | _ => false) s with
@@ -223,32 +226,33 @@ def silent (c : Cfg) (want : Option Nat) (s : St) : M (Option St) :=
   match s.disp with
   | .running =>
     if s.write < c.N then
-      if s.gerr.isSome then pure (some { s with disp := D.closing })
+      if s.gerr.isSome then pure (some ({ s with disp := D.closing }, 0))
       else throw s!"item-{s.write}-never-passed-to-f-though-nothing-failed"
-    else pure (some { s with disp := D.closing })
-  | .closing => pure (some { s with disp := D.exited, inClosed := true })
+    else pure (some ({ s with disp := D.closing }, 0))
+  | .closing => pure (some ({ s with disp := D.exited, inClosed := true }, 0))
   | .exited =>
     match findLane (fun l => l.wk != Wk.exited) s with
     | some (j, l) =>
       (match l.wk with
         | .holding k =>
-          if s.gerr.isSome then pure (some (setLane s j { l with wk := Wk.exited }))
+          if s.gerr.isSome then pure (some (setLane s j { l with wk := Wk.exited }, j))
           else throw s!"item-{k}-computed-but-never-handed-to-the-consumer"
         | .idle =>
           if l.inq.isSome then throw s!"worker-{j}-never-called-f-on-the-item-in-in[{j}]"
-          else pure (some (setLane s j { l with wk := Wk.exited }))
+          else pure (some (setLane s j { l with wk := Wk.exited }, j))
         | _ => throw "unreachable")
     | none =>
-      if !s.outClosed then pure (some { s with outClosed := true })
-      else pure (some { s with fin := some s.gerr })
+      if !s.stored then pure (some ({ s with merr := s.gerr, stored := true }, 0))
+      else if !s.outClosed then pure (some ({ s with outClosed := true }, 0))
+      else pure (some ({ s with fin := some s.merr }, 0))
 
 def runDown (c : Cfg) (want : Option Nat) : Nat → St → M St
   | 0, _ => throw "run-down-out-of-fuel"
   | f + 1, s => do
     match ← silent c want s with
     | none => pure s
-    | some t =>
-      let t ← follow c s t
+    | some (t, j) =>
+      let t ← follow c s t j
       runDown c want f t
 
 def replay (c : Cfg) : List Ev → Nat → RS → M Unit
@@ -263,7 +267,7 @@ def replay (c : Cfg) : List Ev → Nat → RS → M Unit
       if l.inq == some k then demand c (4 * (c.n + c.N) + 8) (.recv j) rs else throw s!"item-{k}-cannot-reach-worker-{j}-here")
     let l ← lane rs.s j
     if l.wk != Wk.busy k then throw s!"worker-{j}-is-not-about-to-call-f-on-item-{k}"
-    let t ← follow c rs.s (setLane rs.s j { l with wk := if c.fails k then Wk.failing k else Wk.holding k })
+    let t ← follow c rs.s (setLane rs.s j { l with wk := if c.fails k then Wk.failing k else Wk.holding k }) j
     replay c es ti { rs with s := t }
   | .take k _ :: es, ti, rs => do
     if k != ti then throw "takes-out-of-order"
@@ -288,7 +292,9 @@ def conform (r : Run) (a : Answer) : M Unit := do
     | some m => (m, some (some m))
     | none => (r.N, some none)
   if a.mapCount != wantCount || a.mapEnd != wantEnd then throw "map-itself-differs-from-its-spec"
-  replay c a.evs 0 { s := init c, nexts := 0 }
+  -- the replay costs O(lanes²) (every worker returns in a step of its own): above 1024 cores only the property
+  -- predicate and `map` are checked
+  if r.n ≤ 1024 then replay c a.evs 0 { s := init c, nexts := 0 }
 
 def step (_ : Unit) (op impl : String) : Unit × Verdict :=
   match parseRun op, parseAnswer impl with
